@@ -2668,7 +2668,9 @@ void read_table_column_alignments(const char * source, token * table, scratch_pa
 		walker = walker->next;
 	}
 
-	scratch->table_alignment[counter] = '\0';
+	// Columns beyond the separator line get the default alignment -- not what
+	// an earlier, wider table left behind
+	memset(&scratch->table_alignment[counter], '\0', kMaxTableColumns - counter);
 	scratch->table_column_count = counter;
 }
 
